@@ -17,6 +17,12 @@ fn go<T: Scalar, const D: usize>(h: &C10, out: &mut Outcome<T>) {
     let g = h.entry.ograph();
     let kin = sym_kin::<T>(&g, D, false);
     let run = run_sample::<T, D>(&h.entry, &h.routing, &kin, &settings(true, true, None), None, out);
+    // the rescaled Feynman parameters are abstracted to arbitrary positive reals on every path,
+    // error paths included (so that their infeasibility is decided once, independently of the sector)
+    let x = run.logged("momtrop_feynman_parameter").expect("feature log: momtrop_feynman_parameter").clone();
+    for (e, xe) in x.iter().enumerate() {
+        out.cut(*xe, format!("X{}", e), &["(> {} 0.0)"]);
+    }
     let res = match &run.res {
         Ok(r) => r,
         Err(e) => {
@@ -25,13 +31,9 @@ fn go<T: Scalar, const D: usize>(h: &C10, out: &mut Outcome<T>) {
         }
     };
     let md = res.metadata.as_ref().unwrap();
-    let x = run.logged("momtrop_feynman_parameter").expect("feature log").clone();
     let l = g.num_loops();
     let (zero, one, two) = (T::rat(0, 1), T::rat(1, 1), T::rat(2, 1));
-    // abstractions: Feynman parameters > 0, lambda > 0, v >= 0, Gaussian vectors arbitrary reals
-    for (e, xe) in x.iter().enumerate() {
-        out.cut(*xe, format!("X{}", e), &["(> {} 0.0)"]);
-    }
+    // further abstractions: lambda > 0, Gaussian vectors arbitrary reals
     out.cut(md.lambda, "LAM", &[]);
     out.assume("lambda>0", zero, Rel::Lt, md.lambda);
     for i in 0..l {
